@@ -176,12 +176,18 @@ def r_fmt_scan(ctx, rep):
     check("plain", [(s, False, False, False, 0) for s in ('0', '#', ' ', ':', '.', '-', '$', 'x', 'g')],
           lambda eff, g: not any(e.startswith("return") for e in eff), "no return")
     # P9 brackets are counted
+    br_ty = (unwrap(unwrap(m["scrut"])["es"][i_br]).get("ty") or "")
+    narrow = br_ty in ("u8", "u16", "i8", "i16")
     check("open-bracket", [('[', False, False, a, b) for a in B for b in (0, 1)],
-          lambda eff, g: eff == {"brackets+="}, "`brackets += 1`")
+          lambda eff, g: eff == {"brackets=expr"} or (eff == {"brackets+="} and not narrow),
+          "`brackets = brackets.saturating_add(1)` (a plain `+= 1` overflows the %s counter after %s unmatched `[`)" % (br_ty, {"u8": 255, "i8": 127, "u16": 65535, "i16": 32767}.get(br_ty, "many")))
+    # P9b an unmatched `]` at depth 0 must not underflow the counter
+    check("close-bracket-at-zero", [(']', False, False, a, 0) for a in B],
+          lambda eff, g: "brackets-=" not in eff, "no plain `brackets -= 1` at depth 0 (saturating_sub, or nothing)")
     check("close-bracket", [(']', False, False, a, b) for a in B for b in (1, 2)],
           lambda eff, g: (eff == {"brackets=expr"} or eff == {"brackets-="} or (g and eff == {"return TimeDelta"})), "`brackets -= 1` (or TimeDelta when an elapsed token was just read)")
 
-    clauses = ["escaped", "quoted", "closing-quote", "opening-quote", "escape-start", "section-end", "bracketed", "bracketed-ampm", "date-letter", "am-pm", "plain", "open-bracket", "close-bracket"]
+    clauses = ["escaped", "quoted", "closing-quote", "opening-quote", "escape-start", "section-end", "bracketed", "bracketed-ampm", "date-letter", "am-pm", "plain", "open-bracket", "close-bracket", "close-bracket-at-zero"]
     for c in clauses:
         key = "formats::detect_custom_number_format|R-FMT-SCAN|%s" % c
         if c in bad:
